@@ -5,8 +5,7 @@ package verifsim
 import (
 	"fmt"
 	"strings"
-	"testing/synctest"
-	"time"
+		"time"
 
 	"github.com/tokenized/pkg/bitcoin"
 	"github.com/tokenized/spynode/internal/storage"
@@ -222,24 +221,11 @@ func runC10crash(c *Ctx) {
 }
 
 func runC10fail(c *Ctx) {
-	// how many operations does this scenario perform? run it once fault-free on a cloned tape
-	probe := *c.Scen
-	probeCtx := *c
-	probeCtx.Scen = &probe
-	probeCtx.Res = &RunResult{}
-	schedProbe := simrt.ReplayTape(nil)
-	probeCtx.Sched = schedProbe
-	crp, _, _, _ := c10scenario(&probeCtx, -1)
-	ops := crp.ns.Disk.OpCount
-	crp.ns.S.Kill()
-	synctest.Wait()
-	if ops == 0 {
-		c.Res.Inconclusive = "no-disk-ops"
-		return
-	}
-	// the real run: same scenario (same tape), one operation fails. The schedule may differ from
-	// the probe, so j is simply some operation index of this run.
-	j := int(c.Sched.Choose(uint32(ops)))
+	// which operation fails: an index drawn over a range that covers the operation counts these
+	// scenarios produce (a draw beyond the run's operations means no fault fired: not counted as
+	// non-trivial)
+	ops := pickFrom(c.Scen, 20, 40, 80, 160)
+	j := int(c.Scen.Choose(uint32(ops)))
 	c.FaultConfigured("F-disk-err")
 	cr, announced, _, _ := c10scenario(c, j)
 	ns := cr.ns
@@ -248,7 +234,7 @@ func runC10fail(c *Ctx) {
 	simrt.Go("driver2", func() {
 		defer func() { done = true }()
 		// either outcome is allowed, so do not wait the full convergence budget before restarting
-		ok, why := cr.settleWithin(4 * time.Minute)
+		ok, why := cr.settleWithin(90 * time.Second)
 		if ok {
 			c.Probe("survived_without_restart")
 		} else {
